@@ -864,6 +864,94 @@ def gen_xsd(repo, out):
     out.summary["schema_directory"] = name
 
 
+# ------------------------------------------------------------------------------------- translated functions
+
+FNS_HEADER = """(* GENERATED by translator/gen.py from the current /repo working tree -- do not edit, never committed.
+   Functions of ascmhl/history.py translated statement by statement (a fixed loop shape, the conditions translated
+   as expressions); Props/C04.v proves that they are the lookups of Model/History.v. *)
+From Coq Require Import List NArith ZArith Bool.
+Import ListNotations.
+From MHL Require Import Model.History Model.Emit.
+Definition is_none {A} (o : option A) : bool := match o with None => true | Some _ => false end.
+Definition opt_action_eqb (a b : option action) : bool :=
+  match a, b with Some x, Some y => action_eqb x y | None, None => true | _, _ => false end.
+Definition opt_fmt_eqb (a b : option fmt) : bool :=
+  match a, b with Some x, Some y => fmt_eqb x y | None, None => true | _, _ => false end.
+"""
+
+
+def tx_cond(e, item, opt_params):
+    """a Python condition over `hash_entry` and the optional parameters -> Gallina bool expression"""
+    if isinstance(e, ast.BoolOp):
+        op = " && " if isinstance(e.op, ast.And) else " || "
+        return "(" + op.join(tx_cond(v, item, opt_params) for v in e.values) + ")"
+    if isinstance(e, ast.UnaryOp) and isinstance(e.op, ast.Not):
+        return "(negb " + tx_cond(e.operand, item, opt_params) + ")"
+    if isinstance(e, ast.Compare) and len(e.ops) == 1 and len(e.comparators) == 1:
+        l, op, r = e.left, e.ops[0], e.comparators[0]
+        if isinstance(op, (ast.Is, ast.IsNot)) and isinstance(r, ast.Constant) and r.value is None and isinstance(l, ast.Name) and l.id in opt_params:
+            return f"(is_none {l.id})" if isinstance(op, ast.Is) else f"(negb (is_none {l.id}))"
+        if isinstance(op, ast.Eq) and ast.unparse(l) == "hash_entry.action" and isinstance(r, ast.Constant) and isinstance(r.value, str):
+            return f"(opt_action_eqb (e_action hash_entry) (action_of_text (Some {coq_text(r.value)})))"
+        if isinstance(op, ast.Eq) and ast.unparse(l) == "hash_entry.hash_format" and isinstance(r, ast.Name) and r.id in opt_params:
+            return f"(opt_fmt_eqb (Some (e_fmt hash_entry)) {r.id})"
+    fail(item, f"condition outside the translated fragment: {ast.unparse(e)}")
+
+
+def tx_lookup(fn, coq_name, item, opt_params):
+    """for hash_list in self.hash_lists: media_hash = hash_list.find_media_hash_for_path(relative_path);
+       if media_hash is None: continue; for hash_entry in media_hash.hash_entries: if C1: return hash_entry [elif C2: return hash_entry ...]
+       return None"""
+    body = [st for st in fn.body if not (isinstance(st, ast.Expr) and isinstance(st.value, ast.Constant))]
+    want_args = ["self", "relative_path"] + list(opt_params)
+    if [a.arg for a in fn.args.args] != want_args:
+        fail(item, f"parameters {[a.arg for a in fn.args.args]} (expected {want_args})")
+    ok = (len(body) == 2 and isinstance(body[0], ast.For) and ast.unparse(body[0].target) == "hash_list" and ast.unparse(body[0].iter) == "self.hash_lists"
+          and not body[0].orelse and isinstance(body[1], ast.Return) and ast.unparse(body[1]) == "return None")
+    if not ok:
+        fail(item, "outer shape: `for hash_list in self.hash_lists: ...` then `return None` expected")
+    inner = body[0].body
+    ok = (len(inner) == 3 and ast.unparse(inner[0]) == "media_hash = hash_list.find_media_hash_for_path(relative_path)"
+          and ast.unparse(inner[1]) == "if media_hash is None:\n    continue"
+          and isinstance(inner[2], ast.For) and ast.unparse(inner[2].target) == "hash_entry" and ast.unparse(inner[2].iter) == "media_hash.hash_entries"
+          and not inner[2].orelse and len(inner[2].body) == 1 and isinstance(inner[2].body[0], ast.If))
+    if not ok:
+        fail(item, f"loop body outside the translated fragment: {[ast.unparse(x) for x in inner]}")
+    conds, node = [], inner[2].body[0]
+    while True:
+        if [ast.unparse(x) for x in node.body] != ["return hash_entry"]:
+            fail(item, f"branch body {[ast.unparse(x) for x in node.body]} (expected `return hash_entry`)")
+        conds.append(tx_cond(node.test, item, opt_params))
+        if not node.orelse:
+            break
+        if len(node.orelse) != 1 or not isinstance(node.orelse[0], ast.If):
+            fail(item, "else branch outside the translated fragment")
+        node = node.orelse[0]
+    cond = " || ".join(conds)
+    params = "".join(f" ({p} : option fmt)" for p in opt_params)
+    args = "".join(f" {p}" for p in opt_params)
+    return (f"(* history.py:{fn.name} *)\n"
+            f"Fixpoint {coq_name} (hash_lists : list gen) (relative_path : path){params} : option entry :=\n"
+            f"  match hash_lists with\n  | [] => None\n  | hash_list :: rest =>\n"
+            f"      match find_media_hash hash_list relative_path with\n"
+            f"      | None => {coq_name} rest relative_path{args}\n"
+            f"      | Some media_hash =>\n"
+            f"          match find (fun hash_entry => {cond}) (r_entries media_hash) with\n"
+            f"          | Some hash_entry => Some hash_entry\n"
+            f"          | None => {coq_name} rest relative_path{args}\n          end\n      end\n  end.\n")
+
+
+def generate_fns(repo):
+    mod = parse(repo, "ascmhl/history.py")
+    cls = find_class(mod, "MHLHistory", "MHLHistory")
+    parts = [FNS_HEADER]
+    parts.append(tx_lookup(find_func(cls.body, "find_original_hash_entry_for_path", "find_original_hash_entry_for_path"),
+                           "src_find_original", "find_original_hash_entry_for_path", []))
+    parts.append(tx_lookup(find_func(cls.body, "find_first_hash_entry_for_path", "find_first_hash_entry_for_path"),
+                           "src_find_first", "find_first_hash_entry_for_path", ["hash_format"]))
+    return "\n".join(parts)
+
+
 # --------------------------------------------------------------------------------------------------- main
 
 HEADER = """(* GENERATED by translator/gen.py from the current /repo working tree -- do not edit, never committed.
@@ -902,16 +990,29 @@ def main(argv):
     except TranslateError as e:
         print(json.dumps({"ok": False, "error": str(e)}))
         return 1
-    old = None
-    if os.path.exists(dst):
-        with open(dst, "r", encoding="utf-8") as fh:
-            old = fh.read()
-    if old != text:
-        os.makedirs(os.path.dirname(dst), exist_ok=True)
-        with open(dst + ".tmp", "w", encoding="utf-8") as fh:
-            fh.write(text)
-        os.replace(dst + ".tmp", dst)
-    print(json.dumps({"ok": True, "changed": old != text, "items": len(summary), "shape_warnings": WARNINGS}))
+    fn_error = None
+    try:
+        fns = generate_fns(repo)
+    except TranslateError as e:
+        # only Props/C04.v (through Proofs/SourceLookupFacts.v) names the translated functions: without them its obligations
+        # do not build, and the failure stays with the property whose statements are made with these lookups
+        fn_error = str(e)
+        fns = FNS_HEADER + comment("TRANSLATION FAILED: " + fn_error) + "\n"
+    changed = False
+    # the translated functions go to GeneratedFns.v beside the constants (they import the model, the constants are imported by it)
+    for path, content in ((dst, text), (os.path.join(os.path.dirname(dst), "GeneratedFns.v"), fns)):
+        old = None
+        if os.path.exists(path):
+            with open(path, "r", encoding="utf-8") as fh:
+                old = fh.read()
+        if old != content:
+            changed = True
+            os.makedirs(os.path.dirname(path), exist_ok=True)
+            with open(path + ".tmp", "w", encoding="utf-8") as fh:
+                fh.write(content)
+            os.replace(path + ".tmp", path)
+    print(json.dumps({"ok": True, "changed": changed, "items": len(summary) + (0 if fn_error else 2), "shape_warnings": WARNINGS,
+                      **({"function_translation_failed": fn_error} if fn_error else {})}))
     return 0
 
 
